@@ -149,12 +149,10 @@ fn tracked(f: &SFacts, i: &Inst, at: usize) -> (bool, bool) {
     if i.app_dropped.map(|d| d < at).unwrap_or(false) {
         surely = false; // the guard's cancellation may or may not have been processed yet
     }
-    if let Some((hd, _)) = i.hdrop {
-        // aborted (expiry) — the only remaining reason once cancels/app drops are excluded
-        if hd < at && i.hfinish.is_none() && i.app_dropped.is_none() {
-            surely = false;
-        }
-    }
+    // A handler aborted for no reason the peer can know of (no cancellation read, deadline not
+    // passed, not dropped by the application) does not end the request from the peer's point of
+    // view: the id is still in flight. (An earlier version called this case uncertain, which hid
+    // seeded change C08c.)
     (surely, true)
 }
 
@@ -1345,6 +1343,21 @@ pub fn configs(prop: SProp, tier: Tier) -> Vec<SCfg> {
                                     let mut c = base(rs.clone(), None, rb, *fl, *cap, alpha);
                                     c.route = route;
                                     c.burst = burst;
+                                    out.push(c);
+                                }
+                                // duplicates and the clock: a duplicate carrying a shorter
+                                // deadline, time passing that deadline, another duplicate - the
+                                // request in flight stays the only one (seeded change C08c: the
+                                // ignored duplicate left a timer behind that later "expired" the
+                                // original, so the next duplicate was offered as a new request)
+                                if n == 1 && rb == 1 {
+                                    let rs = vec![
+                                        ReqCfg::simple(1, pol[0]),
+                                        ReqCfg { deadline_ms: 1, ..ReqCfg::simple(1, false) },
+                                        ReqCfg::simple(1, false),
+                                    ];
+                                    let mut c = base(rs, None, rb, *fl, *cap, alpha | S_ADVANCE);
+                                    c.route = route;
                                     out.push(c);
                                 }
                             }
